@@ -1782,10 +1782,10 @@ def r6_8_extents_before_data_is_dropped(ck, P, rid='C06-R8'):
                 ck.ok(R, '%s/%s: %d calls of %s, none after data = NULL' % (u.name, fn, len(calls), ext.name))
 
 
-def r7_11_limits_are_type_limits(ck, P):
+def r7_11_limits_are_type_limits(ck, P, rid='C07-R11'):
     """T-TAB against the types: the constants translate clamps box coordinates to are the smallest and the largest value of the box
     coordinate type of that instantiation (16-bit boxes: -32768 / 32767, 32-bit boxes: INT32_MIN / INT32_MAX)."""
-    R = ck.rule('C07-R11', 'in translate, every constant that is stored into a box coordinate as a clamp is the minimum or the maximum of the coordinate\'s integer type, and both occur: the representable range of a region is exactly the range of its box type (a limit one unit short drops a representable column or row)', floor=2)
+    R = ck.rule(rid, 'in translate, every constant that is stored into a box coordinate as a clamp is the minimum or the maximum of the coordinate\'s integer type, and both occur: the representable range of a region is exactly the range of its box type (a limit one unit short drops a representable column or row)', floor=2)
     for u in units(P):
         for fn, f in sorted(u.functions.items()):
             if not fn.endswith('_translate'):
